@@ -170,6 +170,7 @@ func cmdCheck(args []string) int {
 		case "--only":
 			i++
 			only = args[i]
+			partialRun = true
 		case "-v":
 			verbose = true
 		}
@@ -569,7 +570,7 @@ func inconclusive(id, tier string, seed int, start time.Time, msg string) int {
 		"wall_s":   time.Since(start).Seconds(), "violations": 0,
 	}
 	b, _ := json.MarshalIndent(ev, "", " ")
-	evDir := envOr("VERIF_EVIDENCE_DIR", filepath.Join(verifDir, "evidence"))
+	evDir := evidenceDir()
 	os.MkdirAll(evDir, 0o755)
 	os.WriteFile(filepath.Join(evDir, id+".json"), b, 0o644)
 	return 2
@@ -891,9 +892,24 @@ func writeEvidence(id, tier string, seed int, cc *CheckCfg, results []*harnessRe
 		"wall_s":      round2(wall), "violations": violations,
 	}
 	b, _ := json.MarshalIndent(ev, "", " ")
-	evDir := envOr("VERIF_EVIDENCE_DIR", filepath.Join(verifDir, "evidence"))
+	evDir := evidenceDir()
 	os.MkdirAll(evDir, 0o755)
 	os.WriteFile(filepath.Join(evDir, id+".json"), b, 0o644)
+}
+
+// evidenceDir: /verif/evidence, unless redirected; a run restricted to one
+// harness (--only) is a development aid and never overwrites the evidence of
+// the registered command.
+var partialRun bool
+
+func evidenceDir() string {
+	if v := os.Getenv("VERIF_EVIDENCE_DIR"); v != "" {
+		return v
+	}
+	if partialRun {
+		return filepath.Join(verifDir, ".work", "evidence-partial")
+	}
+	return filepath.Join(verifDir, "evidence")
 }
 
 func appendUnique(l []string, s string) []string {
